@@ -1,5 +1,6 @@
 import PgVerif.Model.TableGen
 import PgVerif.Spec.LR1
+import PgVerif.Proofs.LRComplete
 /-!
 # C05 — table construction terminates and is a faithful LR(1)-family table
 
@@ -10,8 +11,19 @@ conflict resolution never invents an action — every action of the resolved cel
 was in the cell before or is the reduction being added (`C05_resolve_no_invention`),
 so resolution can
 only remove alternatives the LR(1)-family automaton offers, never add foreign
-ones. Faithfulness w.r.t. the canonical LR(1) and LALR(1) reference automata
-(`Spec/LR1.lean`) and termination (state budget derived from the canonical
+ones.
+
+**Nothing valid is missing** is proved by validation (`C05_validated_table_complete`,
+`C05_validated_table_exact`): for every table that passes the completeness
+validator of `Spec/LRValid.lean` together with the item sets its states stand for
+— FIRST data closed under the grammar, start item present, item sets closed, every
+shift, goto, reduction and the accept an item calls for present — **every sentence
+of every input has an accepting run** of the nondeterministic LR automaton; with
+`Table.wf` the accepting runs are exactly the sentences. The validator is evaluated
+on every strategy-free LALR and SLR table the implementation builds, with the
+implementation's own item sets and FIRST sets. Faithfulness w.r.t. the canonical
+LR(1) and LALR(1) reference automata (`Spec/LR1.lean`: no reduction outside the
+LALR(1) lookahead) and termination (state budget derived from the canonical
 automaton) are decided on the explored scope; see DESIGN.md.
 -/
 namespace Pg
@@ -72,5 +84,26 @@ always added. -/
 theorem C05_resolve_empty_cell (g : GGrammar) (o : GenOpts) (p shPrior : Nat) :
     resolveCell g o [] p shPrior = [Action.reduce p] := by
   simp [resolveCell, decideShift, addReduce]
+
+/-- Every sentence has an accepting run over a validated table (Jourdan–Pottier–Leroy style
+completeness validation; `I` are the item sets, `F` the FIRST data handed to the validator). -/
+theorem C05_validated_table_complete {g : Grammar} {T : Table} {I : Nat → List LRV.VItem}
+    {F : LRV.FirstData} {inp : Input} (hv : LRV.lrComplete g T I F = true) (hin : InputOK inp)
+    (h : Sentence g inp) :
+    ∃ (c : Config) (t : Tree) (e p : Nat), Reach g T inp c ∧ NStep g T inp c (.done (.ok t e p)) := by
+  obtain ⟨t, ht⟩ := h
+  exact lr_complete hv hin t ht
+
+/-- Over a well-formed, validated table the nondeterministic LR automaton accepts exactly the
+sentences. -/
+theorem C05_validated_table_exact {g : Grammar} {T : Table} {I : Nat → List LRV.VItem}
+    {F : LRV.FirstData} {inp : Input} (hw : T.wf g = true) (hv : LRV.lrComplete g T I F = true)
+    (hin : InputOK inp) :
+    Sentence g inp ↔
+      ∃ (c : Config) (t : Tree) (e p : Nat), Reach g T inp c ∧ NStep g T inp c (.done (.ok t e p)) := by
+  constructor
+  · exact C05_validated_table_complete hv hin
+  · rintro ⟨c, t, e, p, hr, hs⟩
+    exact ⟨t, nd_sound hw c hr t e p hs⟩
 
 end Pg
